@@ -33,6 +33,7 @@ CFG = dict(
     ],
     min_counts={"any": {
         "dynamic_growth": 200,
+        "dynamic_growth_of_buffer_of_16MiB_or_more": 50,
         "dynamic_growth_source_inside_destination": 5,
         "secure_release_inspected": 100,
         "secure_releases_nonzero_before_call": 100,
